@@ -188,7 +188,7 @@ def check_truth_run(ctx: Ctx, rname: str, res: dict, by_track: Dict[str, List[st
         step = -1
         for idx in range(tr["first"], len(tr["impl"])):
             cell = tr["impl"][idx]
-            if isinstance(cell, str) or cell[0] == "flatdim":
+            if isinstance(cell, str) or cell[0] in ("flatdim", "gflat"):
                 continue
             step += 1
             o, contained, fb = cell
